@@ -26,7 +26,9 @@ Forms   == {"call", "notification", "batch_first", "batch_mid", "batch_last", "b
             "batch_after_invalid", "batch_before_invalid"}      \* a malformed element (1, {"foo":"bar"}) as neighbour
 (* besides the plain wrong ones: an empty value, a proper prefix of the right value ("Basic", and the right value minus *)
 (* its last character) and the right value with a character appended - what a sloppy comparison would let through     *)
-Headers == {"none", "wronguser", "wrongpass", "malformed", "empty", "scheme_only", "truncated", "extended", "correct"}
+(* "token_case_folded": the right scheme word, the right token with its letters lower-cased (base64 is case-sensitive: other  *)
+(* credentials).  A lower-case SCHEME word with the right token is deliberately not a class: RFC 7235 allows it either way.  *)
+Headers == {"none", "wronguser", "wrongpass", "malformed", "empty", "scheme_only", "truncated", "extended", "token_case_folded", "correct"}
 AuthSet == {TRUE, FALSE}
 (* the same port answers plain HTTP POSTs and WebSocket upgrades; on a WebSocket connection the header travels *)
 (* with the upgrade request and every frame sent afterwards is judged by it                                    *)
